@@ -18,6 +18,16 @@ def run(ctx):
         ctx.finding("Session:trace-rejected:%s:%s" % (ev and ev.get("ev"), ev and ev.get("res")),
                     "recorded execution is not a behaviour of Session.tla: event #%d %s cannot be matched" % (hw, ev),
                     {"event_index": hw, "event": ev, "context": events[max(0, hw - 12):hw]})
+    # concurrent delivery on one endpoint: call/return events, TLC searches a linearisation
+    rounds, g = (30, 6) if ctx.quick() else (300, 8)
+    csumm, cres, chw, cln, cevents = S.traces(ctx, "TestZZVSessionConcRecv", {"ZZV_ROUNDS": rounds, "ZZV_G": g},
+                                              "c01concrecv", cfg="TraceSessionSeal.cfg", dfs=True)
+    if chw != cln + 1:
+        ev = cevents[chw - 1] if 0 < chw <= len(cevents) else None
+        ctx.finding("Session:concurrent-delivery-not-linearizable",
+                    "results of concurrent Decrypt calls on one SessionKey have no linearisation in Session.tla "
+                    "(e.g. one payload accepted twice): stuck at event #%d %s" % (chw, ev),
+                    {"event_index": chw, "event": ev, "context": cevents[max(0, chw - 16):chw + 4]})
     ctx.evidence("model_checking",
                  assumptions=["ChaCha20-Poly1305 itself is unforgeable (forged frames are produced by byte mutation, "
                               "not by key compromise)",
@@ -25,7 +35,8 @@ def run(ctx):
                               "bounded model: MaxC=%d, %d encrypts per endpoint; traces: counters shifted to both ends "
                               "of the 64-bit range" % (maxc, maxmsgs)],
                  states=ideal.distinct, transitions=nedges,
-                 traces_validated_against_impl=len(paths) * 2 + summ["traces"],
+                 traces_validated_against_impl=len(paths) * 2 + summ["traces"] + csumm["traces"],
+                 concurrent_decrypt_calls=csumm["calls"], concurrent_accepts=csumm["accepts"],
                  exhaustive=True,
                  replayed_paths=len(paths) * 2, replayed_steps=steps, replay_mismatches=len(mism),
                  trace_events=summ["events"], trace_highwater=hw,
